@@ -517,7 +517,7 @@ func (o *Org) render(depth int) string {
 	case "param":
 		return fmt.Sprintf("param#%d", o.Param)
 	case "field":
-		return r(o.Base) + "." + o.Field.Name()
+		return r(o.Base) + "." + cn(o.Field)
 	case "global":
 		return "global:" + o.Global.Name()
 	case "zero", "lit":
@@ -681,7 +681,7 @@ func (o *Org) ArgConstInt(i int, n int64) bool {
 func (o *Org) FieldPath() (root *Org, path []string) {
 	for o != nil && (o.Kind == "field" || o.Kind == "deref") {
 		if o.Kind == "field" {
-			path = append([]string{o.Field.Name()}, path...)
+			path = append([]string{cn(o.Field)}, path...)
 		}
 		o = o.Base
 	}
@@ -792,7 +792,7 @@ func (o *Org) sigRender(depth int) string {
 	r := func(x *Org) string { return x.sigRender(depth + 1) }
 	switch o.Kind {
 	case "field":
-		return r(o.Base) + "." + o.Field.Name()
+		return r(o.Base) + "." + cn(o.Field)
 	case "deref":
 		return "*" + r(o.Base)
 	case "binop":
@@ -852,4 +852,104 @@ func (o *Org) sigRender(depth int) string {
 		return s
 	}
 	return o.render(depth)
+}
+
+// Inlined looks through calls to small in-module helpers: when o is a call whose static
+// callee is a single-block function (no branches) returning one expression, the result is
+// that expression with the callee's parameters replaced by the call's arguments. Applied
+// where a rule matches the shape of an expression, so that extracting the expression into
+// a helper does not change the verdict.
+func (p *Prog) Inlined(o *Org) *Org { return p.inlined(o, 0) }
+
+func (p *Prog) inlined(o *Org, depth int) *Org {
+	if o == nil || depth > 4 {
+		return o
+	}
+	if o.Kind != "call" || o.Callee == nil || !p.InModule(o.Callee) || len(o.Callee.Blocks) != 1 {
+		return o
+	}
+	cal := o.Callee
+	ret, ok := cal.Blocks[0].Instrs[len(cal.Blocks[0].Instrs)-1].(*ssa.Return)
+	if !ok || o.Res >= len(ret.Results) {
+		return o
+	}
+	body := p.Origin(ret.Results[o.Res])
+	var actual []*Org
+	if o.Recv != nil {
+		actual = append(actual, o.Recv)
+	}
+	actual = append(actual, o.Args...)
+	if len(actual) != len(cal.Params) {
+		return o
+	}
+	out := substOrg(body, func(x *Org) *Org {
+		if x.Kind == "param" && x.Fn == cal && x.Param < len(actual) {
+			return actual[x.Param]
+		}
+		return nil
+	}, 0)
+	return p.inlined(out, depth+1)
+}
+
+func substOrg(o *Org, f func(*Org) *Org, d int) *Org {
+	if o == nil || d > 12 {
+		return o
+	}
+	if r := f(o); r != nil {
+		return r
+	}
+	cp := *o
+	cp.str = ""
+	changed := false
+	sub := func(x *Org) *Org {
+		y := substOrg(x, f, d+1)
+		if y != x {
+			changed = true
+		}
+		return y
+	}
+	cp.Base, cp.Recv, cp.X, cp.Y = sub(o.Base), sub(o.Recv), sub(o.X), sub(o.Y)
+	if len(o.Args) > 0 {
+		cp.Args = make([]*Org, len(o.Args))
+		for i, a := range o.Args {
+			cp.Args[i] = sub(a)
+		}
+	}
+	if len(o.Alts) > 0 {
+		cp.Alts = make([]*Org, len(o.Alts))
+		for i, a := range o.Alts {
+			cp.Alts[i] = sub(a)
+		}
+	}
+	if !changed {
+		return o
+	}
+	return &cp
+}
+
+// DeepMentions is Mentions that also looks into the results of in-module callees (any return,
+// up to three calls deep): a computation moved into a helper is still seen.
+func (p *Prog) DeepMentions(o *Org, pred func(*Org) bool) bool { return p.deepMentions(o, pred, 0, map[*ssa.Function]bool{}) }
+
+func (p *Prog) deepMentions(o *Org, pred func(*Org) bool, depth int, busy map[*ssa.Function]bool) bool {
+	if o == nil {
+		return false
+	}
+	return o.Mentions(func(x *Org) bool {
+		if pred(x) {
+			return true
+		}
+		if x.Kind == "call" && x.Callee != nil && p.InModule(x.Callee) && depth < 3 && !busy[x.Callee] {
+			busy[x.Callee] = true
+			defer delete(busy, x.Callee)
+			for _, b := range x.Callee.Blocks {
+				if r, ok := b.Instrs[len(b.Instrs)-1].(*ssa.Return); ok && x.Res < len(r.Results) {
+					if p.deepMentions(p.Origin(r.Results[x.Res]), pred, depth+1, busy) {
+						return true
+					}
+				}
+			}
+		}
+		return false
+	})
 }
